@@ -62,6 +62,37 @@ def _fail_label(cond_ast, call):
     return None
 
 
+def _status_param_tested(tu, call_, need_flag=True):
+    """the status of call_ is handed to a function of the library whose matching parameter is tested for failure (`status < 0`); with
+    need_flag the failure branch must set has_failure before the helper returns: the helper does what the in-line test does"""
+    par_ = call_.parent
+    while par_ is not None and par_.kind in ("ImplicitCastExpr", "ParenExpr", "CStyleCastExpr"):
+        par_ = par_.parent
+    if par_ is None or par_.kind != "CallExpr" or par_.callee not in tu.functions:
+        return False
+    callee = tu.functions[par_.callee]
+    ps = [p_.name for p_ in callee.children if p_.kind == "ParmVarDecl"]
+    idx = [i for i, a_ in enumerate(par_.args) if a_.begin <= call_.begin and call_.end <= a_.end]
+    if not idx or idx[0] >= len(ps):
+        return False
+    pn = ps[idx[0]]
+    g2 = _cfg.build_c(callee)
+    for cn2 in g2.nodes:
+        if cn2.kind == "cond" and cn2.ast is not None:
+            e2 = cn2.ast.strip()
+            if e2.kind == "BinaryOperator" and e2.opcode == "<" and e2.children[0].path() == pn and e2.children[1].intval() == 0:
+                if not need_flag:
+                    return True
+                fail = [b for b, l in g2.succ[cn2.id] if l == "T"]
+                sets = [n2.id for n2 in g2.nodes if n2.ast is not None and any(
+                    p2 is not None and p2.endswith("->has_failure") and rhs2 is not None and (rhs2.intval() or 0) != 0
+                    for p2, nd2, rhs2, k2 in clib.stores(n2.ast))]
+                rets2 = [n2.id for n2 in g2.nodes if n2.kind in ("return", "exit")]
+                if sets and not any(x in g2.reach(fail, avoid=sets) for x in rets2):
+                    return True
+    return False
+
+
 def r1_flush_status_gates_publication(repo=None):
     r = Rule("C10.R1", "the status of every flush point is examined before the publish decision (status + must-pass)")
     tu = cfront.lib(repo)
@@ -128,7 +159,10 @@ def r1_flush_status_gates_publication(repo=None):
                 else:
                     r.ok(site, "status stored in `%s` and tested on every path" % var)
                 continue
-            r.violation(LIB, fname, cons, "status of a flush point used in an unrecognised way (%s)" % use, line=c.line)
+            if use == "argument" and _status_param_tested(tu, c):
+                r.ok(site, "status handed to a helper of the library that tests it and sets has_failure on failure")
+                continue
+            raise AnalysisError("%s: status of %s used in a way this rule does not follow (%s)" % (fname, cons, use))
         # the result of the publish call itself
         use = clib.status_usage(pub)
         site = "%s:%s %s digital_rf_close_hdf5_file()" % (LIB, pub.line, fname)
@@ -472,8 +506,10 @@ def r4_no_lost_status(repo=None):
                     r.violation(LIB, fname, "%s(...) result discarded" % c.callee,
                                 "an I/O status is discarded: a failure of this call is never noticed", line=c.line)
             else:
-                r.violation(LIB, fname, "%s(...) result used as %s" % (c.callee, use), "unrecognised use of an I/O status",
-                            line=c.line)
+                if use == "argument" and _status_param_tested(tu, c, need_flag=False):
+                    r.ok(site, "status handed to a helper of the library that tests it")
+                else:
+                    raise AnalysisError("%s: result of %s(...) used as %s: a use of an I/O status this rule does not follow" % (fname, c.callee, use))
     r.guard(12)
     return r
 
